@@ -137,6 +137,15 @@ theorem information_gain_public_finite_of_increasing (ref est : List Rat) (bins 
   rw [Beat.validate_bind_ok]
   exact ⟨hv, h⟩
 
+/-- **Input-level necessary condition for nan.** On validated input (`validate`: non-decreasing beats) the score is
+    nan only if two CONSECUTIVE estimated beats coincide: `est = pre ++ a :: a :: post`. (The witness of
+    `information_gain_finite_full_statement_false` has `est = [5.5, 5.5]`.) -/
+theorem information_gain_nan_needs_coincident_beats (ref est : List Rat) (bins : Nat) (tie : Bool) (hb : 2 ≤ bins)
+    (hv : Beat.validate ref est = .ok ())
+    (h : Beat.informationGain Beat.realOps ref est bins = .ok (none, tie)) :
+    ∃ pre a post, est = pre ++ a :: a :: post :=
+  Beat.informationGain_none_needs_dup (by omega) hv h
+
 example : ([11 / 2, 6] : List Rat).Pairwise (· < ·) ∧ 2 ≤ ([11 / 2, 6] : List Rat).length ∧
     Beat.validate [5, 6, 7] [11 / 2, 6] = .ok () ∧
     Beat.beatErrors [11 / 2, 6] [5, 6, 7] = .ok [0, 0, 0] := by
